@@ -106,6 +106,12 @@ class ApiRun:
                 if step[0] == "sleep":
                     self.stopped_event.wait(step[1] / TICKS)
                     return
+                if step[0] == "flood":
+                    # a burst the handlers cannot keep up with: the backlog of the observer's queue grows to step[1]
+                    for j in range(step[1]):
+                        self.queue_event(wev.FileCreatedEvent(f"{self.watch.path}/flood{self._idx}_{j}"))
+                    sim.fault_fired("event_flood")
+                    return
                 if step[0] == "die":
                     # the emitter's own code fails: its thread ends, but stop()/unschedule() must still run its
                     # on_thread_stop() hook (that is where an emitter releases what on_thread_start() acquired)
